@@ -1313,7 +1313,7 @@ fn gen_c15(ch: &mut Choices) -> Plan {
 
 pub const C17_TOPICS: [&str; 5] = ["a", "b/1", "t/5", "x/y", "b/2"];
 
-fn c17_script(ch: &mut Choices, max_alias: u16, tag_base: u32, violate: bool) -> Vec<PeerStep> {
+fn c17_script(ch: &mut Choices, max_alias: u16, tag_base: u32, violate: bool, refusable: bool) -> Vec<PeerStep> {
     let ver = Ver::V5;
     let mut script = Vec::new();
     let n = 2 + ch.choose(7);
@@ -1321,7 +1321,8 @@ fn c17_script(ch: &mut Choices, max_alias: u16, tag_base: u32, violate: bool) ->
     for i in 0..n {
         let alias = 1 + ch.choose(u32::from(max_alias.max(1))) as u16;
         let topic = *ch.pick(&C17_TOPICS);
-        let qos = ch.choose(2) as u8;
+        // (a refusal can only be expressed for QoS 1: with refusing handlers every publish is acknowledged)
+        let qos = if refusable { 1 } else { ch.choose(2) as u8 };
         let pid = if qos > 0 { Some(100 + i as u16) } else { None };
         // bind/rebind (topic + alias), use (alias only), plain publish
         let kind = if bound.contains(&alias) { ch.weighted(&[30, 50, 20]) } else { ch.weighted(&[60, 0, 40]) };
@@ -1369,6 +1370,9 @@ fn gen_c17(ch: &mut Choices) -> Plan {
     let mut plan = base_plan("C17", role, ch);
     plan.cfg.use_router = ch.chance(1, 2);
     plan.p_immediate = *ch.pick(&[1000u32, 0, 500]);
+    // a publish that binds an alias may be refused by the application (negative acknowledgement): the
+    // binding is made by the packet, not by the handler's verdict
+    plan.w_outcome = *ch.pick(&[[1u32, 0, 0], [1, 0, 0], [5, 3, 0]]);
     let max_alias = 1 + ch.choose(3) as u16;
     if role.is_server() {
         plan.cfg.max_topic_alias = max_alias;
@@ -1377,11 +1381,12 @@ fn gen_c17(ch: &mut Choices) -> Plan {
         plan.cfg.client_topic_alias_max = max_alias;
     }
     plan.tags.push(format!("max-alias:{max_alias}"));
+    let refusable = plan.w_outcome[1] > 0;
     let v1 = ch.chance(1, 3);
-    plan.peer.script = c17_script(ch, max_alias, 0, v1);
+    plan.peer.script = c17_script(ch, max_alias, 0, v1, refusable);
     if role.is_server() {
         let v2 = ch.chance(1, 3);
-        plan.peer.script2 = c17_script(ch, max_alias, 1000, v2);
+        plan.peer.script2 = c17_script(ch, max_alias, 1000, v2, refusable);
     }
     plan.ending = Ending::Settle;
     plan
